@@ -27,24 +27,24 @@ func TestVerifC13(t *testing.T) {
 		return
 	}
 	rng := hk.NewRNG(hk.Seed(), "c13")
-	hostilePrelude(hk.NewRNG(hk.Seed(), "prelude"))
-	d0 := randScalar(rng)
-	P0 := refPub(d0)
+	zvHostilePrelude(hk.NewRNG(hk.Seed(), "prelude"))
+	d0 := zvRandScalar(rng)
+	P0 := zvRefPub(d0)
 	px0, py0 := ref.B32(P0.X), ref.B32(P0.Y)
 
 	// ---- ZA for every id length 0..8193 and beyond
-	lens := []int{}
+	zvLens := []int{}
 	for l := 0; l <= 8193; l++ {
-		lens = append(lens, l)
+		zvLens = append(zvLens, l)
 	}
-	lens = append(lens, 8194, 8200, 9000, 16383, 16384, 16385, 32768, 65535, 65536, 70000)
+	zvLens = append(zvLens, 8194, 8200, 9000, 16383, 16384, 16385, 32768, 65535, 65536, 70000)
 	idbuf := rng.Bytes(70000)
-	hk.Parallel(len(lens), func(i int) {
-		l := lens[i]
+	hk.Parallel(len(zvLens), func(i int) {
+		l := zvLens[i]
 		id := idbuf[:l]
 		px, py := px0, py0
 		if l%97 == 0 {
-			P := ref.BaseMulFast(randScalarIdx(hk.Seed(), l))
+			P := ref.BaseMulFast(zvRandScalarIdx(hk.Seed(), l))
 			px, py = ref.B32(P.X), ref.B32(P.Y)
 		}
 		want, werr := ref.SM2ZA(id, px, py)
@@ -55,7 +55,7 @@ func TestVerifC13(t *testing.T) {
 		if l >= 8190 {
 			cls = fmt.Sprintf("idlen=%d", l)
 		}
-		d := hk.D{"idlen": l, "px": hk.Hex(px), "py": hk.Hex(py), "got": hexOrNil(got), "err": errStr(err)}
+		d := hk.D{"idlen": l, "px": hk.Hex(px), "py": hk.Hex(py), "got": zvHexOrNil(got), "err": zvErrStr(err)}
 		switch {
 		case p:
 			d["panic"] = msg
@@ -97,7 +97,7 @@ func TestVerifC13(t *testing.T) {
 				var err error
 				p, msg, _, _ := hk.Try(func() { got, err = ZA(cand, px0, py0) })
 				if p || err != nil || !bytes.Equal(got, want) {
-					r.Violation("za-wrong:id-related-to-the-default-or-previous-id", hk.D{"id": hk.Hex(cand), "id_text": string(cand), "got": hexOrNil(got), "want": hk.Hex(want), "err": errStr(err), "panic": msg})
+					r.Violation("za-wrong:id-related-to-the-default-or-previous-id", hk.D{"id": hk.Hex(cand), "id_text": string(cand), "got": zvHexOrNil(got), "want": hk.Hex(want), "err": zvErrStr(err), "panic": msg})
 				}
 				prev = cand
 				if len(prev) == 0 {
@@ -108,7 +108,7 @@ func TestVerifC13(t *testing.T) {
 		}
 		// and through the wrappers: a signature made under the default id must NOT verify under an extension of it
 		msgR := rng.Bytes(40)
-		rr, ss, serr := Sign(def, px0, py0, newScript(idbuf[:256]), ref.B32(d0), msgR)
+		rr, ss, serr := Sign(def, px0, py0, zvNewScript(idbuf[:256]), ref.B32(d0), msgR)
 		if serr == nil {
 			for _, other := range [][]byte{append(append([]byte{}, def...), 'x'), def[:15], append(append([]byte{}, def...), def...)} {
 				if ok, _ := Verify(other, px0, py0, msgR, rr, ss); ok {
@@ -148,7 +148,7 @@ func TestVerifC13(t *testing.T) {
 				case 2:
 					// zeros
 				default:
-					copy(id, idbuf[:min(l, len(idbuf))])
+					copy(id, idbuf[:zvMin(l, len(idbuf))])
 				}
 				var got []byte
 				var err error
@@ -179,8 +179,8 @@ func TestVerifC13(t *testing.T) {
 				}
 				// and through the id-level entry points
 				if variant < 2 && i%4 == 0 {
-					_, _, serr := Sign(id, px0, py0, newScript(idbuf[:256]), ref.B32(d0), []byte("m"))
-					ok, _ := Verify(id, px0, py0, []byte("m"), ref.B32(bi(5)), ref.B32(bi(7)))
+					_, _, serr := Sign(id, px0, py0, zvNewScript(idbuf[:256]), ref.B32(d0), []byte("m"))
+					ok, _ := Verify(id, px0, py0, []byte("m"), ref.B32(zvBi(5)), ref.B32(zvBi(7)))
 					if serr == nil || ok {
 						r.Violation("sign-or-verify-accepts-too-long-id", hk.D{"idlen": l, "content_variant": variant})
 					}
@@ -200,16 +200,16 @@ func TestVerifC13(t *testing.T) {
 			if p {
 				r.Violation("za-panics:too-long-id", hk.D{"idlen": l, "panic": msg})
 			} else if err == nil {
-				r.Violation(fmt.Sprintf("za-accepts-too-long-id:len=2^%d+%d", bitlenInt(l)-1, l-1<<uint(bitlenInt(l)-1)), hk.D{"idlen": l, "za": hk.Hex(got)})
+				r.Violation(fmt.Sprintf("za-accepts-too-long-id:len=2^%d+%d", zvBitlenInt(l)-1, l-1<<uint(zvBitlenInt(l)-1)), hk.D{"idlen": l, "za": hk.Hex(got)})
 			}
 			if l == 1<<29+16 {
-				_, _, serr := Sign(big[:l], px0, py0, newScript(idbuf[:256]), ref.B32(d0), []byte("m"))
-				ok, _ := Verify(big[:l], px0, py0, []byte("m"), ref.B32(bi(5)), ref.B32(bi(7)))
+				_, _, serr := Sign(big[:l], px0, py0, zvNewScript(idbuf[:256]), ref.B32(d0), []byte("m"))
+				ok, _ := Verify(big[:l], px0, py0, []byte("m"), ref.B32(zvBi(5)), ref.B32(zvBi(7)))
 				if serr == nil || ok {
 					r.Violation("sign-or-verify-accepts-too-long-id", hk.D{"idlen": l})
 				}
 			}
-			r.Eval(fmt.Sprintf("za:too-long,len=2^%d+", bitlenInt(l)-1))
+			r.Eval(fmt.Sprintf("za:too-long,len=2^%d+", zvBitlenInt(l)-1))
 		}
 		hk.Unmap(big)
 	} else {
@@ -237,15 +237,15 @@ func TestVerifC13(t *testing.T) {
 			model := ref.SM2Sign(d0, e, stream)
 			var rr, ss []byte
 			var err error
-			p, msg, _, _ := hk.Try(func() { rr, ss, err = SignZa(newScript(stream), ref.B32(d0), za, big[:l]) })
-			d := hk.D{"message": "2^29+3 zero bytes", "za": hk.Hex(za), "model_e": hk.Hex(e), "r": hexOrNil(rr), "s": hexOrNil(ss), "err": errStr(err), "panic": msg}
+			p, msg, _, _ := hk.Try(func() { rr, ss, err = SignZa(zvNewScript(stream), ref.B32(d0), za, big[:l]) })
+			d := hk.D{"message": "2^29+3 zero bytes", "za": hk.Hex(za), "model_e": hk.Hex(e), "r": zvHexOrNil(rr), "s": zvHexOrNil(ss), "err": zvErrStr(err), "panic": msg}
 			if p || err != nil || model.R == nil || !bytes.Equal(rr, ref.B32(model.R)) || !bytes.Equal(ss, ref.B32(model.S)) {
 				r.Violation("signza-differs-from-model-on-message-of-2^29-bytes", d)
 			} else {
 				ok, verr := VerifyZa(px0, py0, za, big[:l], rr, ss)
 				ok2, _ := VerifyZa(px0, py0, za, big[:l-1], rr, ss)
 				if !ok || verr != nil || ok2 {
-					d["verify"], d["verify_err"], d["verify_of_shorter_message"] = ok, errStr(verr), ok2
+					d["verify"], d["verify_err"], d["verify_of_shorter_message"] = ok, zvErrStr(verr), ok2
 					r.Violation("verifyza-wrong-on-message-of-2^29-bytes", d)
 				}
 			}
@@ -263,13 +263,13 @@ func TestVerifC13(t *testing.T) {
 	msgbuf := rng.Bytes(maxMsg + 1)
 	idChoices := [][]byte{{}, []byte("1234567812345678"), rng.Bytes(1), rng.Bytes(23), rng.Bytes(55), rng.Bytes(100), rng.Bytes(8191)}
 	hk.Parallel(maxMsg+1, func(l int) {
-		lr := hk.NewRNG(hk.Seed(), caseID("c13w", l))
+		lr := hk.NewRNG(hk.Seed(), zvCaseID("c13w", l))
 		msg := msgbuf[:l]
 		id := idChoices[l%len(idChoices)]
 		d := d0
 		px, py := px0, py0
 		if l%5 == 0 {
-			d = randScalar(lr)
+			d = zvRandScalar(lr)
 			P := ref.BaseMulFast(d)
 			px, py = ref.B32(P.X), ref.B32(P.Y)
 		}
@@ -292,13 +292,13 @@ func TestVerifC13(t *testing.T) {
 		var r1, s1, r2, s2, r3, s3 []byte
 		var e1, e2, e3 error
 		p, pm, _, _ := hk.Try(func() {
-			r1, s1, e1 = Sign(id, px, py, newScript(stream), priv, msg)
-			r2, s2, e2 = SignZa(newScript(stream), priv, za, msg)
-			r3, s3, e3 = SignHashed(newScript(stream), priv, e)
+			r1, s1, e1 = Sign(id, px, py, zvNewScript(stream), priv, msg)
+			r2, s2, e2 = SignZa(zvNewScript(stream), priv, za, msg)
+			r3, s3, e3 = SignHashed(zvNewScript(stream), priv, e)
 		})
 		det := hk.D{"id": hk.Hex(id), "msglen": l, "msg": hk.Hex(msg), "priv": hk.Hex(priv), "stream": hk.Hex(stream[:model.Consumed]),
-			"sign": hexOrNil(r1) + "," + hexOrNil(s1), "signza": hexOrNil(r2) + "," + hexOrNil(s2), "signhashed": hexOrNil(r3) + "," + hexOrNil(s3),
-			"model": hk.Hex(ref.B32(model.R)) + "," + hk.Hex(ref.B32(model.S)), "errs": errStr(e1) + "|" + errStr(e2) + "|" + errStr(e3)}
+			"sign": zvHexOrNil(r1) + "," + zvHexOrNil(s1), "signza": zvHexOrNil(r2) + "," + zvHexOrNil(s2), "signhashed": zvHexOrNil(r3) + "," + zvHexOrNil(s3),
+			"model": hk.Hex(ref.B32(model.R)) + "," + hk.Hex(ref.B32(model.S)), "errs": zvErrStr(e1) + "|" + zvErrStr(e2) + "|" + zvErrStr(e3)}
 		cls := fmt.Sprintf("(za||m)%%64=%d", (32+l)%64)
 		if p {
 			det["panic"] = pm
@@ -351,14 +351,14 @@ func TestVerifC13(t *testing.T) {
 	{
 		id := []byte("1234567812345678")
 		for q := 0; q < hk.N(12, 60); q++ {
-			d := randScalar(rng)
+			d := zvRandScalar(rng)
 			if q%3 == 0 {
 				d = new(big.Int).SetBytes(rng.Bytes(1 + rng.Intn(31))) // a value with leading zero bytes
 			}
 			if !ref.ValidPriv(d) {
 				continue
 			}
-			P := refPub(d)
+			P := zvRefPub(d)
 			px, py := ref.B32(P.X), ref.B32(P.Y)
 			za, _ := ref.SM2ZA(id, px, py)
 			var msg []byte
@@ -373,11 +373,11 @@ func TestVerifC13(t *testing.T) {
 				if len(priv) > 32 || len(priv) == 0 {
 					continue
 				}
-				rh, sh, eh := SignHashed(newScript(stream), priv, e)
-				rz, sz, ez := SignZa(newScript(stream), priv, za, msg)
-				ri, si, ei := Sign(id, px, py, newScript(stream), priv, msg)
+				rh, sh, eh := SignHashed(zvNewScript(stream), priv, e)
+				rz, sz, ez := SignZa(zvNewScript(stream), priv, za, msg)
+				ri, si, ei := Sign(id, px, py, zvNewScript(stream), priv, msg)
 				if (eh == nil) != (ez == nil) || (eh == nil) != (ei == nil) || !bytes.Equal(rh, rz) || !bytes.Equal(sh, sz) || !bytes.Equal(rh, ri) || !bytes.Equal(sh, si) {
-					r.Violation("sign-wrappers-differ-from-SignHashed:argument-shape", hk.D{"priv": hk.Hex(priv), "priv_len": len(priv), "msg_is_nil": msg == nil, "signhashed": hexOrNil(rh) + "," + errStr(eh), "signza": hexOrNil(rz) + "," + errStr(ez), "sign": hexOrNil(ri) + "," + errStr(ei)})
+					r.Violation("sign-wrappers-differ-from-SignHashed:argument-shape", hk.D{"priv": hk.Hex(priv), "priv_len": len(priv), "msg_is_nil": msg == nil, "signhashed": zvHexOrNil(rh) + "," + zvErrStr(eh), "signza": zvHexOrNil(rz) + "," + zvErrStr(ez), "sign": zvHexOrNil(ri) + "," + zvErrStr(ei)})
 				}
 			}
 			m := ref.SM2Sign(d, e, stream)
@@ -394,7 +394,7 @@ func TestVerifC13(t *testing.T) {
 				vi, _ := Verify(id, px, py, msg, sh.r, sh.s)
 				want := ref.SM2Verify(px, py, e, sh.r, sh.s)
 				if vh != want || vz != want || vi != want {
-					r.Violation("verify-wrappers-differ:argument-shape", hk.D{"r_len": len(sh.r), "s_len": len(sh.s), "msg_is_nil": msg == nil, "verifyhashed": vh, "verifyza": vz, "verify": vi, "model": want, "r": hexOrNil(sh.r), "s": hexOrNil(sh.s)})
+					r.Violation("verify-wrappers-differ:argument-shape", hk.D{"r_len": len(sh.r), "s_len": len(sh.s), "msg_is_nil": msg == nil, "verifyhashed": vh, "verifyza": vz, "verify": vi, "model": want, "r": zvHexOrNil(sh.r), "s": zvHexOrNil(sh.s)})
 				}
 			}
 			r.Eval("wrap:argument-shapes")
@@ -411,8 +411,8 @@ func TestVerifC13(t *testing.T) {
 		for _, ml := range []int{1 << 20, 1<<20 + 1, 1<<20 - 1, 1<<22 + 5, 70000} {
 			msg := bigMsg[:ml]
 			e := ref.SM2E(za, msg)
-			for ti, target := range []*big.Int{new(big.Int).Set(nm1), bi(1), bi(2), new(big.Int).Lsh(bi(1), 200), new(big.Int).Set(nm2), randScalar(rng)} {
-				k := randScalar(rng)
+			for ti, target := range []*big.Int{new(big.Int).Set(zvNm1), zvBi(1), zvBi(2), new(big.Int).Lsh(zvBi(1), 200), new(big.Int).Set(zvNm2), zvRandScalar(rng)} {
+				k := zvRandScalar(rng)
 				x1 := ref.BaseMulFast(k).X
 				rI := ref.ModN(new(big.Int).Add(ref.Int(e), x1))
 				den := ref.ModN(new(big.Int).Add(target, rI))
@@ -437,13 +437,13 @@ func TestVerifC13(t *testing.T) {
 					det["verifyza"], det["verifyhashed"] = okZa, okH
 					r.Violation("VerifyZa-differs-from-VerifyHashed:large-message-with-boundary-signature", det)
 				}
-				r2, s2, err := SignZa(newScript(append(ref.B32(k), rng.Bytes(64)...)), ref.B32(d), za, msg)
+				r2, s2, err := SignZa(zvNewScript(append(ref.B32(k), rng.Bytes(64)...)), ref.B32(d), za, msg)
 				if err != nil || !bytes.Equal(r2, rB) || !bytes.Equal(s2, sB) {
-					det["signza"] = hexOrNil(r2) + "," + hexOrNil(s2)
+					det["signza"] = zvHexOrNil(r2) + "," + zvHexOrNil(s2)
 					r.Violation("SignZa-not-standard:large-message-with-boundary-signature", det)
 				}
 				// rejected ones: r = n-1 / s = n-1 with an ordinary partner must be rejected by both, identically
-				for _, bad := range [][2]*big.Int{{nm1, randScalar(rng)}, {randScalar(rng), nm1}, {nI, target}, {target, nI}} {
+				for _, bad := range [][2]*big.Int{{zvNm1, zvRandScalar(rng)}, {zvRandScalar(rng), zvNm1}, {zvNI, target}, {target, zvNI}} {
 					bz, _ := VerifyZa(px, py, za, msg, ref.B32(bad[0]), ref.B32(bad[1]))
 					bh := ref.SM2Verify(px, py, e, ref.B32(bad[0]), ref.B32(bad[1]))
 					if bz != bh {
@@ -451,7 +451,7 @@ func TestVerifC13(t *testing.T) {
 						r.Violation("VerifyZa-differs-from-model:large-message-with-boundary-signature", det)
 					}
 				}
-				r.Eval(fmt.Sprintf("pair:msglen=2^%d,s-class=%d", bitlenInt(ml)-1, ti))
+				r.Eval(fmt.Sprintf("pair:msglen=2^%d,s-class=%d", zvBitlenInt(ml)-1, ti))
 			}
 		}
 	}
@@ -460,7 +460,7 @@ func TestVerifC13(t *testing.T) {
 	//      between id-level calls (a server handling one request after another). Every call is compared
 	//      with the model for the contents the buffers hold at that moment.
 	for sess := 0; sess < hk.N(60, 600); sess++ {
-		lr := hk.NewRNG(hk.Seed(), caseID("c13h", sess))
+		lr := hk.NewRNG(hk.Seed(), zvCaseID("c13h", sess))
 		idBuf := make([]byte, 64)
 		msgBuf := make([]byte, 128)
 		pxBuf, pyBuf := make([]byte, 32), make([]byte, 32)
@@ -468,7 +468,7 @@ func TestVerifC13(t *testing.T) {
 		msgLen := lr.Pick([]int{0, 5, 32, 100})
 		var keysD []*big.Int
 		for k := 0; k < 2; k++ {
-			keysD = append(keysD, randScalar(lr))
+			keysD = append(keysD, zvRandScalar(lr))
 		}
 		var hist []string
 		var prevR, prevS []byte
@@ -489,13 +489,13 @@ func TestVerifC13(t *testing.T) {
 			}
 			d := keysD[lr.Intn(len(keysD))]
 			if step == 0 || lr.Intn(3) == 0 {
-				P := refPub(d)
+				P := zvRefPub(d)
 				copy(pxBuf, ref.B32(P.X))
 				copy(pyBuf, ref.B32(P.Y))
 			} else {
 				// which key is in the buffers now?
 				for _, kd := range keysD {
-					if bytes.Equal(ref.B32(refPub(kd).X), pxBuf) {
+					if bytes.Equal(ref.B32(zvRefPub(kd).X), pxBuf) {
 						d = kd
 					}
 				}
@@ -512,9 +512,9 @@ func TestVerifC13(t *testing.T) {
 			switch op := lr.Intn(4); op {
 			case 0:
 				hist = append(hist, fmt.Sprintf("Sign(idlen=%d)", idLen))
-				rr, ss, err := Sign(id, pxBuf, pyBuf, newScript(stream), ref.B32(d), msg)
+				rr, ss, err := Sign(id, pxBuf, pyBuf, zvNewScript(stream), ref.B32(d), msg)
 				if err != nil || !bytes.Equal(rr, ref.B32(model.R)) || !bytes.Equal(ss, ref.B32(model.S)) {
-					det["got"] = hexOrNil(rr) + "," + hexOrNil(ss)
+					det["got"] = zvHexOrNil(rr) + "," + zvHexOrNil(ss)
 					r.Violation("history:Sign-not-standard-on-reused-buffers", det)
 				}
 				prevR, prevS = ref.B32(model.R), ref.B32(model.S)
@@ -560,7 +560,7 @@ func TestVerifC13(t *testing.T) {
 		var ok bool
 		var verr error
 		p, pm, _, _ := hk.Try(func() { ok, verr = Verify(id, px, py, msg, hk.Unhex(k.R), hk.Unhex(k.S)) })
-		d := hk.D{"fixture": i, "id": k.Id, "msg": k.Msg, "px": k.Px, "py": k.Py, "r": k.R, "s": k.S, "err": errStr(verr)}
+		d := hk.D{"fixture": i, "id": k.Id, "msg": k.Msg, "px": k.Px, "py": k.Py, "r": k.R, "s": k.S, "err": zvErrStr(verr)}
 		if p {
 			d["panic"] = pm
 			r.Violation("openssl-signature-panics", d)
@@ -576,11 +576,11 @@ func TestVerifC13(t *testing.T) {
 	}
 }
 
-func randScalarIdx(seed uint64, i int) *big.Int {
-	return randScalar(hk.NewRNG(seed, caseID("c13k", i)))
+func zvRandScalarIdx(seed uint64, i int) *big.Int {
+	return zvRandScalar(hk.NewRNG(seed, zvCaseID("c13k", i)))
 }
 
-func bitlenInt(v int) int {
+func zvBitlenInt(v int) int {
 	n := 0
 	for ; v > 0; v >>= 1 {
 		n++
